@@ -6,11 +6,12 @@
 mod vx_bounded {
     use super::*;
 
-    fn detection_ok(c: &[(Range<usize>, Vec<String>)], gs: &[Grapheme]) -> Result<(), String> {
+    fn detection_ok(c: &[(Range<usize>, Vec<String>)], gs: &[Grapheme], min_rep: u32) -> Result<(), String> {
         for (k, (range, substr)) in c.iter().enumerate() {
             if !(range.start <= range.end && range.end <= gs.len()) { return Err(format!("range {:?} outside the input", range)); }
             if substr.is_empty() { return Err("empty unit".to_string()); }
             if 2 * substr.len() > gs.len() { return Err(format!("unit {:?} longer than half the input", substr)); }
+            if (range.end - range.start) / substr.len() <= min_rep as usize { return Err(format!("range {:?} repeats the unit {:?} no more often than the minimum {}", range, substr, min_rep)); }
             if (range.end - range.start) % substr.len() != 0 { return Err(format!("range {:?} is not a multiple of the unit {:?}", range, substr)); }
             for j in range.clone() {
                 if gs[j].value() != substr[(j - range.start) % substr.len()] { return Err(format!("range {:?} does not spell the unit {:?}", range, substr)); }
@@ -60,7 +61,7 @@ mod vx_bounded {
                     for g in &out { if g.minimum() != g.maximum() { panic!("VX-BOUNDED-FAIL kind=symbols input={:?} min_rep={} min_len={}: a range count straight out of the conversion", w, min_rep, min_len); } flat(g, &mut acc); }
                     if acc != w { panic!("VX-BOUNDED-FAIL kind=symbols input={:?} min_rep={} min_len={}: stands for {:?}", w, min_rep, min_len, acc); }
                 }
-                if let Err(e) = detection_ok(&detected, &gs) {
+                if let Err(e) = detection_ok(&detected, &gs, min_rep) {
                     panic!("VX-BOUNDED-FAIL kind=assumption input={:?} min_rep={} min_len={}: {}", w, min_rep, min_len, e);
                 }
                 n += 1;
